@@ -128,3 +128,6 @@ OBLIGATIONS.append(Obl("tag_kernel", tag_kernel, {"c": I(0, 3), "constructed_tag
 OBLIGATIONS.append(Obl("long_cer", long_cer, {"kind": I(0, 3), "size": I(0, 3), "x": I(1, 120)},
                        shards=[{"kind": C(k)} for k in range(2)] + [{"kind": C(k), "size": C(z), "x": C(7)} for k in (2, 3) for z in range(4)], budget=120, per_path=60,
                        doc="CER segmentation at 999/1000/1001/2001 octets"))
+
+# exponent-octet sign boundaries of binary REALs (third sensitivity round): cheap, so also in the quick tier here
+promote(OBLIGATIONS, ["real_exp"])
